@@ -77,7 +77,9 @@ class Check(common.Check):
         params = []
         n_missing = rng.randint(0, 2) if rng.random() < 0.3 else 0
         for i in range(n):
-            nm = f'p{len(names)}'
+            # names never decide the rate group (no sclang-style a_/i_/t_ prefix inference)
+            nm = rng.choice(['p', 'p', 'p', 't_', 'i_', 'a_', 'k_', 't_trig', 'i_freq', 'a_in', 'gate', 'out', 'freq',
+                             'amp', 'trig']) + str(len(names))
             names.append(nm)
             if style < 0.15:
                 ann = None
@@ -479,6 +481,8 @@ class Check(common.Check):
                 inc('specs')
             if c.get('shared_rates'):
                 inc('shared_rates_object')
+            if any(p['n'][:2] in ('t_', 'i_', 'a_') for lv in levels for p in lv['params']):
+                inc('rate_prefix_like_names')
             if any(p.get('dsrc') for lv in levels for p in lv['params']):
                 inc('bool_or_subclass_default')
             inc(f"variants:{len(c.get('variants') or [])}")
